@@ -191,6 +191,24 @@ CHECKS = {
               "real output (tolerances ~10x what correct code achieves)."),
         technique="TLC-enumerated loss patterns + TLA+ bookkeeping oracle via trace validation; estimator accuracy by numeric projection",
     ),
+    "C15": dict(
+        category="model_checking",
+        text=("TLC checks spec/lib/BadChannels.tla in four parts: (I) the repair loop over all label vectors on six small geometries "
+              "(nearness as an integer squared-distance cut derived from exp(-(d/20)^1.3) >= 0.005): only dead/noisy channels "
+              "change, each from its support of near good/outside channels or to zero, in any repair order; (II) the label rule "
+              "(contiguous top block, precedence 2 over 1 over 3) over all flag triples; (III) the per-channel mode over batches; "
+              "(IV) the discrete skeleton of detection (abstract coherence -> 11-point median detrend with the code's padding -> "
+              "flags -> rule) for every silent/noisy position x top-block size. TLC-exported label vectors are replayed on the real "
+              "interpolate_bad_channels; recorded interpolations, detections on synthetic AP-band recordings with injected faults "
+              "(every position over the probe, block sizes 0..40), and file-level runs with detect_bad_channels wrapped to record "
+              "per-batch labels are validated by spec/trace/BadChannelsTrace.tla."),
+        design_ref="DESIGN.md §4 C15",
+        note=("Trusted: TLC; harness/c15.py. Hull membership at every sample, unit sum of the weights and the crossing of the "
+              "numeric thresholds on the synthetic recordings are projections. One known finding (KNOWN_FINDINGS.txt: "
+              "detect:dead-below-top-block). A silent channel inside / directly below the top block may be labelled 1 or 3 (both "
+              "clauses of the property apply to it)."),
+        technique="TLA+ models of repair loop / label rule / mode / detrend skeleton checked with TLC + replay of exported label vectors + trace validation",
+    ),
 }
 
 NOT_YET = {}
